@@ -221,9 +221,38 @@ def _core_range(T, fn):
             if lo[0] == "attr" and lo[2] == "start" and hi[0] == "attr" \
                     and hi[2] == "stop" and lo[1] == hi[1]:
                 found.append((c, plain(lo[1])))
+        elif isinstance(c, ast.Call) and isinstance(c.func, ast.Name) and \
+                c.func.id == "range" and len(c.args) == 1:
+            # range(X.stop - X.start): the offsets from X.start
+            view = owner_terms(T, c)
+            env = _comp_env(view, c)
+            n = view.cfg.node_containing(c)
+            m_ = match(("binop", "Sub", ("attr", V("x"), "stop"),
+                        ("attr", V("x"), "start")),
+                       plain(view.term(c.args[0], n, env)))
+            if m_ is not None:
+                found.append((c, m_["x"]))
     if len(found) != 1:
         raise AnalysisError("%s: core range not found" % fn.name)
     return found[0]
+
+
+def _loop_of_range(c):
+    """The for statement / comprehension whose iterable is the call ``c``."""
+    p = getattr(c, "_parent", None)
+    while p is not None and not isinstance(p, (
+            ast.For, ast.ListComp, ast.SetComp, ast.GeneratorExp,
+            ast.DictComp, ast.FunctionDef)):
+        p = getattr(p, "_parent", None)
+    return p
+
+
+def _inside_node(node, anc):
+    while node is not None:
+        if node is anc:
+            return True
+        node = getattr(node, "_parent", None)
+    return False
 
 
 def _comp_env(view, expr):
@@ -316,6 +345,36 @@ def r3_cores(program, rep):
               "for each core in [X.start, X.stop) of the sink's own "
               "allocation of the core resource",
               construct="router core range %s" % show(x1), node=c1)
+    # ... and the core named by each route is the loop's own element
+    for c in calls_in(rt, "core"):
+        if not _inside_node(c, _loop_of_range(c1)):
+            continue
+        view = owner_terms(TR, c)
+        env = _comp_env(view, c)
+        n = view.cfg.node_containing(c)
+        E = plain(view.term(c.args[0], n, env)) if len(c.args) == 1 else None
+        Xs, Xe = ("attr", x1, "start"), ("attr", x1, "stop")
+        R2 = ("elem", ("call", ("global", "range"), (Xs, Xe), ()))
+        R1 = ("elem", ("call", ("global", "range"),
+                       (("binop", "Sub", Xe, Xs),), ()))
+        good = E is not None and (E == R2 or E in (
+            ("binop", "Add", Xs, R1), ("binop", "Add", R1, Xs)))
+        if not good and E is not None and any(
+                st_[0] == "elem" and st_[1][0] == "call" and
+                st_[1][1] == ("global", "range") for st_ in subterms(E)) \
+                and E not in (R1, R2):
+            raise AnalysisError("route: the core number of a core route is "
+                                "computed from the loop variable in a form "
+                                "that is not analysed")
+        rep.check(good, "C01-R3", qual(rt), "each core route names the "
+                  "core the loop over the allocation has reached",
+                  construct="core route argument %s" % (
+                      show(E) if E is not None else "?"), node=c,
+                  fail="the core routes added for a sink do not name the "
+                       "cores start .. stop-1 of its allocation one by one "
+                       "(the route's core is %s): some allocated cores "
+                       "never receive the net's packets" % (
+                           show(E) if E is not None else "?"))
     VERT = ("comp", ("elem", ("items", P("vertices_applications"))), 0)
     m2 = match(("get", ("item", P("allocations"), V("v")),
                 P("core_resource"), V("dflt")), x2)
